@@ -78,7 +78,7 @@ def render_c(items, seed=0, fortran=False, uid="x"):
         if k == "code":
             ncode += 1
             if fortran:
-                v = rnd.choice([f"{uid}{ncode} = {ncode}", f"call f{ncode}({uid})", f"s = 'a!b' // \"c&d\""])
+                v = rnd.choice([f"{uid}{ncode} = {ncode}", f"call f({uid}{ncode})", f"s = 'a!b' // \"c&d\""])
                 if rnd.random() < 0.25:
                     ls = emit(f"{uid}{ncode} = {ncode} + &", f"  & {ncode}")
                 else:
@@ -88,7 +88,7 @@ def render_c(items, seed=0, fortran=False, uid="x"):
                     ls = emit(f"int {uid}{ncode}", f"  = {ncode};")
                 else:
                     ls = emit(rnd.choice([f"int {uid}{ncode} = {ncode};", f"char *{uid}{ncode} = \"/* no */ // no\";",
-                                          f"int {uid}{ncode}; /* c */", f"  f{ncode}({uid}); // c"]))
+                                          f"int {uid}{ncode}; /* c */", f"  f({uid}{ncode}); // c"]))
             lines_of.append(ls)
             continue
         if k in ("if", "elif"):
